@@ -68,7 +68,7 @@ def main(tier, seed):
         jobs.append((T, dict(n=2, T=2, iter=0, pattern=("ii", "if"), cut=True)))
         jobs.append((T, dict(n=1, T=2, iter=1, pattern=("ff",), cut=False)))
         jobs.append((T, dict(n=1, T=4, iter=1, pattern=("ff",), cut=True)))
-    exs = driver.explore_many(jobs, time_limit=900 if tier == "quick" else 5400, timeout_ms=30000, max_paths=60000)
+    exs = driver.explore_many(jobs, time_limit=900 if tier == "quick" else 9000, timeout_ms=30000, max_paths=60000 if tier == "quick" else 600000)
     W = common.world()
     for ex in exs:
         chk.add(ex)
